@@ -323,11 +323,36 @@ func (expr Expression) variablesUsed(acc map[string]struct{}) {
 			arg.variablesUsed(acc)
 		}
 		return
+	case ExpressionTypeQueryExpression:
+		// Collect all variables used anywhere in the subquery. This may include variables bound inside
+		// of the subquery, which is fine, because a superset only makes the callers more conservative.
+		(&Transformers{
+			ExpressionTransformer: func(subExpr Expression) Expression {
+				if subExpr.ExpressionType == ExpressionTypeVariable {
+					acc[subExpr.Variable.Name] = struct{}{}
+				}
+				return subExpr
+			},
+		}).TransformNode(expr.QueryExpression.Source)
+		return
+	case ExpressionTypeCoalesce:
+		for _, arg := range expr.Coalesce.Arguments {
+			arg.variablesUsed(acc)
+		}
+		return
+	case ExpressionTypeTuple:
+		for _, arg := range expr.Tuple.Arguments {
+			arg.variablesUsed(acc)
+		}
+		return
 	case ExpressionTypeTypeAssertion:
 		expr.TypeAssertion.Expression.variablesUsed(acc)
 		return
 	case ExpressionTypeTypeCast:
 		expr.TypeCast.Expression.variablesUsed(acc)
+		return
+	case ExpressionTypeObjectFieldAccess:
+		expr.ObjectFieldAccess.Object.variablesUsed(acc)
 		return
 	}
 
